@@ -152,7 +152,42 @@ func closureEntry(key, calleePat string, argPats ...string) gate.Gate {
 		Instr: func(in ssa.Instruction) bool {
 			switch x := in.(type) {
 			case *ssa.MakeClosure:
-				return bodyMatches(x) && flow.Reaches(x, toEncodeMap)
+				if !bodyMatches(x) {
+					return false
+				}
+				if flow.Reaches(x, toEncodeMap) {
+					return true
+				}
+				// the value-encoding closure is handed to a helper the rule tables do
+				// not know, which wraps it: helper(key, closure) returns
+				// GenerateMapEntry(func(k, v) { ...; closure(v) }); the helper's
+				// result must reach EncodeMap
+				if x.Referrers() == nil {
+					return false
+				}
+				for _, ref := range *x.Referrers() {
+					c, ok := ref.(*ssa.Call)
+					if !ok {
+						continue
+					}
+					h := c.Call.StaticCallee()
+					if h == nil || h.Blocks == nil || prov.KnownFunction(h) || len(c.Call.Args) != len(h.Params) || h.Pkg == nil || !strings.HasPrefix(h.Pkg.Pkg.Path(), prov.ModulePrefix) {
+						continue
+					}
+					idx := -1
+					for i, a := range c.Call.Args {
+						if a == ssa.Value(x) {
+							idx = i
+						}
+					}
+					if idx < 0 || !helperWrapsClosure(h, idx) {
+						continue
+					}
+					if flow.Reaches(c, toEncodeMap) {
+						return true
+					}
+				}
+				return false
 			case *ssa.Call:
 				// the entry is built by a helper the rule tables do not know:
 				// helper(key, value) returns GenerateMapEntry(closure); the
@@ -196,6 +231,80 @@ func closureEntry(key, calleePat string, argPats ...string) gate.Gate {
 			}
 			return false
 		}}
+}
+
+// helperWrapsClosure: every return of h is GenerateMapEntry(closure) and that
+// closure calls h's parameter idx (a function value) on its value encoder.
+func helperWrapsClosure(h *ssa.Function, idx int) bool {
+	var wrap *ssa.MakeClosure
+	for _, b := range h.Blocks {
+		r, ok := b.Instrs[len(b.Instrs)-1].(*ssa.Return)
+		if !ok {
+			continue
+		}
+		if len(r.Results) != 1 {
+			return false
+		}
+		gm, ok := r.Results[0].(*ssa.Call)
+		if !ok || !strings.HasSuffix(prov.CalleeName(&gm.Call), "cbor.GenerateMapEntry") || len(gm.Call.Args) != 1 {
+			return false
+		}
+		mc, ok := gm.Call.Args[0].(*ssa.MakeClosure)
+		if !ok {
+			return false
+		}
+		wrap = mc
+	}
+	if wrap == nil {
+		return false
+	}
+	wf, ok := wrap.Fn.(*ssa.Function)
+	if !ok || len(wf.Params) != 2 {
+		return false
+	}
+	// which free variable of the wrapper is bound to parameter idx
+	isParam := func(bnd ssa.Value) bool {
+		if bnd == ssa.Value(h.Params[idx]) {
+			return true
+		}
+		// a captured parameter lives in a cell that holds just that parameter
+		al, ok := bnd.(*ssa.Alloc)
+		if !ok || al.Referrers() == nil {
+			return false
+		}
+		n := 0
+		for _, r := range *al.Referrers() {
+			if st, ok := r.(*ssa.Store); ok && st.Addr == ssa.Value(al) {
+				n++
+				if st.Val != ssa.Value(h.Params[idx]) {
+					return false
+				}
+			}
+		}
+		return n == 1
+	}
+	for i, bnd := range wrap.Bindings {
+		if i >= len(wf.FreeVars) || !isParam(bnd) {
+			continue
+		}
+		fv := wf.FreeVars[i]
+		for _, b := range wf.Blocks {
+			for _, in := range b.Instrs {
+				c, ok := in.(*ssa.Call)
+				if !ok || len(c.Call.Args) != 1 || c.Call.Args[0] != ssa.Value(wf.Params[1]) {
+					continue
+				}
+				callee := c.Call.Value
+				if u, ok := callee.(*ssa.UnOp); ok && u.Op == token.MUL {
+					callee = u.X
+				}
+				if callee == ssa.Value(fv) {
+					return true
+				}
+			}
+		}
+	}
+	return false
 }
 
 func bufWrite(key, buf, arg string) gate.Gate {
@@ -363,6 +472,100 @@ func appendCarriesHeaderEntry(app *ssa.Call) bool {
 }
 
 // curveHashTable: signer and verifier pair P-256 with SHA-256 and P-384 with SHA-384.
+// curveHashMapTable: the pairing written as a package-level map from curve
+// name to hash: fn (or a helper the rule tables do not know) looks the curve's
+// name up in a map that only the package initialiser fills, refuses a missing
+// key (comma-ok tested) and stores the value found in the .hash field.
+func curveHashMapTable(e *Env, fn *ssa.Function) map[string]string {
+	pairs := map[string]string{}
+	fs := []*ssa.Function{fn}
+	for _, c := range unknownHelperCalls(e, fn) {
+		fs = append(fs, c.Call.StaticCallee())
+	}
+	var g *ssa.Global
+	for _, f := range fs {
+		for _, b := range f.Blocks {
+			for _, in := range b.Instrs {
+				lk, ok := in.(*ssa.Lookup)
+				if !ok || !lk.CommaOk {
+					continue
+				}
+				ld, ok := lk.X.(*ssa.UnOp)
+				if !ok {
+					continue
+				}
+				if gg, ok := ld.X.(*ssa.Global); ok && strings.Contains(gg.Type().String(), "crypto.Hash") {
+					g = gg
+				}
+			}
+		}
+	}
+	if g == nil || g.Pkg == nil {
+		return pairs
+	}
+	// the hash stored in the algorithm object is the value looked up
+	flows := false
+	for _, b := range fn.Blocks {
+		for _, in := range b.Instrs {
+			if st, ok := in.(*ssa.Store); ok && strings.HasSuffix(prov.Of(st.Addr), ".hash") && strings.Contains(prov.Of(st.Val), prov.Of(g)+"[") {
+				flows = true
+			}
+		}
+	}
+	if !flows {
+		return pairs
+	}
+	// written only by the initialiser, with constant values
+	for _, f := range e.P.Funcs {
+		for _, b := range f.Blocks {
+			for _, in := range b.Instrs {
+				switch x := in.(type) {
+				case *ssa.Store:
+					if x.Addr == ssa.Value(g) && f.Name() != "init" {
+						return map[string]string{}
+					}
+				case *ssa.MapUpdate:
+					if strings.HasPrefix(prov.Of(x.Map), prov.Of(g)) && f.Name() != "init" {
+						return map[string]string{}
+					}
+				}
+			}
+		}
+	}
+	init := g.Pkg.Func("init")
+	if init == nil {
+		return pairs
+	}
+	for _, b := range init.Blocks {
+		for _, in := range b.Instrs {
+			st, ok := in.(*ssa.Store)
+			if !ok || st.Addr != ssa.Value(g) {
+				continue
+			}
+			mm, ok := st.Val.(*ssa.MakeMap)
+			if !ok || mm.Referrers() == nil {
+				continue
+			}
+			for _, r := range *mm.Referrers() {
+				mu, ok := r.(*ssa.MapUpdate)
+				if !ok {
+					continue
+				}
+				k := prov.Of(mu.Key)
+				switch {
+				case strings.Contains(k, "elliptic.P256()"):
+					pairs["P-256"] = prov.Of(mu.Value)
+				case strings.Contains(k, "elliptic.P384()"):
+					pairs["P-384"] = prov.Of(mu.Value)
+				default:
+					pairs["other:"+k] = prov.Of(mu.Value)
+				}
+			}
+		}
+	}
+	return pairs
+}
+
 func curveHashTable(e *Env) {
 	for _, name := range []string{"internal/signingalgorithm.SigningAlgorithmForPrivateKey", "internal/signingalgorithm.VerifierForPublicKey"} {
 		fn := e.fn(name)
@@ -397,6 +600,9 @@ func curveHashTable(e *Env) {
 					}
 				}
 			}
+		}
+		if len(pairs) == 0 {
+			pairs = curveHashMapTable(e, fn)
 		}
 		want := map[string]string{"P-256": "const:5", "P-384": "const:6"} // crypto.SHA256 = 5, crypto.SHA384 = 6
 		for _, c := range []string{"P-256", "P-384"} {
